@@ -1,5 +1,5 @@
 #!/usr/bin/env python3
-"""behaviour-preserving rewrites of qsort.c / bsearch.c (applied in the worktree on top of the fixes, run, restored).
+"""behaviour-preserving rewrites of qsort.c / bsearch.c (applied in the worktree, run, restored).
 usage: python3 rewrites.py [substring]      every rewrite must leave c11_order silent (exit 0)"""
 import os
 import subprocess
@@ -473,7 +473,7 @@ def main():
         src = open(p).read()
         try:
             open(p, 'w').write(new(src) if callable(new) else new)
-            r = subprocess.run([sys.executable, DRV, WT], capture_output=True, text=True, env=env)
+            r = subprocess.run(['timeout', '-s', 'KILL', '600', sys.executable, DRV, WT], capture_output=True, text=True, env=env)
         finally:
             open(p, 'w').write(src)
         print('%-36s exit %d' % (name, r.returncode))
